@@ -84,6 +84,21 @@ def rule_pending_after_scan(ctx, M, u, rule, extra_guard_edges=()):
     if not pend:
         ctx.fail(rule, u.where, "no Pending result in the body", site=u.body.span)
         return
+    guards = list(ex) + list(extra_guard_edges)
+    body = bi.body
     for b in pend:
-        ok = bool(ex) and bi.guarded_by(b, list(ex) + list(extra_guard_edges))
+        ok = bool(ex) and bi.guarded_by(b, guards)
+        if not ok and ex:
+            # `let mut ret = Poll::Pending; for .. { .. ret = Poll::Ready(x); break; } ret`: the Pending built up front is
+            # what is returned only if no later definition of the carrier overwrote it - i.e. on paths from here to the
+            # return that avoid every other definition, and those must cross the scan's exit edge
+            for st in body.stmts(b):
+                if st["k"] == "assign" and not st["lhs"]["p"] and st["lhs"]["l"] != 0 and st["rv"]["k"] == "agg" and st["rv"].get("vname") == "Pending":
+                    L = st["lhs"]["l"]
+                    others = [d[0] for d in body.defs.get(L, []) if d[0] != b and d[0] in body.reachable and not body.is_cleanup(d[0])]
+                    carried = all(rv.get("k") == "use" and bi.T.of_rvalue(rv, 0) == ("phi", L) for _, _, rv in bi.assigns_to_return()
+                                  if not (rv.get("k") == "agg"))
+                    r = body.reach(body.succs(b), avoid_blocks=others, avoid_edges=guards)
+                    if others and carried and not any(x in r for x in bi.return_blocks):
+                        ok = True
         ctx.check(ok, rule, u.where, "Pending is produced only on the scan loop's exit edge", site=bi.describe(b))
